@@ -295,3 +295,21 @@ Theorem C12_maven_differs_from_reference :
   MavenCV.spec_cmp $"1.0.1" $"1.0-1" = Some Gt /\ v_cmp Maven.Entry.v $"1.0.1" $"1.0-1" = Some Eq.
 Proof. vm_compute. split; reflexivity. Qed.
 Print Assumptions C12_maven_differs_from_reference.
+
+(* ====== ties to the source: BEGIN (written by bin/mkties) ====== *)
+(* The Go functions named here are translated into Gallina from /repo's source on every run
+   (tools/gen -> Gen/Code/<Eco>.v for loop-free functions, Gen/Loops/<Eco>.v for functions with
+   loops and index expressions, where a panic is Panic and a loop takes fuel); Tie/<Eco>.v,
+   Tie/<Eco>Range.v and Tie/Loops/<Eco>.v prove each translation equal to the model the theorems
+   above speak about (and, for the loop functions: no panic, termination within a linear bound).
+   If the code changes so that a tie no longer holds, this file no longer checks. *)
+Require Verif.Tie.Loops.Maven.
+Require Verif.Tie.Extra.Maven.
+Definition C12_tie_loops_maven_trimTrailingNulls_gen := @Verif.Tie.Loops.Maven.tie_loops_maven_trimTrailingNulls_gen.
+Definition C12_tie_loops_maven_trimTrailingNulls := @Verif.Tie.Loops.Maven.tie_loops_maven_trimTrailingNulls.
+Definition C12_tie_trimTrailingNulls_total_model := @Verif.Tie.Loops.Maven.trimTrailingNulls_total_model.
+Definition C12_tie_maven_normalizeQualifier := @Verif.Tie.Extra.Maven.tie_maven_normalizeQualifier.
+Definition C12_tie_maven_elem_of := @Verif.Tie.Extra.Maven.tie_maven_elem_of.
+Definition C12_ties_all := (C12_tie_loops_maven_trimTrailingNulls, (C12_tie_loops_maven_trimTrailingNulls_gen, (C12_tie_maven_elem_of, (C12_tie_maven_normalizeQualifier, C12_tie_trimTrailingNulls_total_model)))).
+Print Assumptions C12_ties_all.
+(* ====== ties to the source: END ====== *)
